@@ -33,7 +33,7 @@ def ill_kind(msg):
     for pat, k in (("invalid map key type", "invalid-map-key"), (r"operator \S+ not defined", "operator-not-defined"),
                    ("cannot convert", "bad-conversion"), ("used as value", "no-value-used"), ("cannot use", "argument-mismatch"),
                    (r"expected |missing ", "does-not-parse"), ("undefined:", "undefined-name"), ("redeclared", "redeclared"),
-                   ("declared and not used", "unused")):
+                   ("declared and not used", "unused"), ("imported and not used", "unused-import")):
         if re.search(pat, msg):
             return k
     return re.sub(r"[^a-z]+", "-", msg.lower())[:30].strip("-")
@@ -72,6 +72,10 @@ def judge(c, r, tc, root):
         sig = re.sub(r"[^A-Za-z ]+", " ", msg.split(":")[0]).split()
         problems.append(("C09/panic:%s" % "-".join(sig[:6]), "Go panic instead of a diagnostic (%s, %s): %s" % (pl, c["what"], line.strip()[:300])))
         return problems, notes
+    if r["rc"] != 0 and c.get("mustok"):
+        problems.append(("C09/supported-input-rejected:%s:%s" % (c["family"], pl),
+                         "a well-typed package inside the supported grammar is rejected (%s): %s" % (c["what"], out.strip().splitlines()[-1][:300] if out.strip() else "<no message>")))
+        return problems, notes
     if r["rc"] != 0:
         if not out.strip():
             problems.append(("C09/empty-diagnostic:" + pl, "non-zero exit without any message"))
@@ -92,9 +96,9 @@ def judge(c, r, tc, root):
         return problems, notes
     derived_parse = [x for x in j["parse"] if x.startswith("derived.gen.go")]
     if derived_parse:
-        cls = "C09/exit0-unparsable-file:" + pl
-        if not (c["unsupp"] or c["userbad"] or c["family"] == "broken"):
-            cls = "other-property/exit0-unparsable-file:" + pl
+        cls = "C09/exit0-unparsable-file:" + pl  # a file that does not parse is a bad file whatever the input was
+        if c.get("mustok"):
+            cls = "C09/exit0-unparsable-file:%s:%s" % (c["family"], pl)
         problems.append((cls, "exit 0 but derived.gen.go does not parse (%s): %s" % (c["what"], derived_parse[0][:200])))
         return problems, notes
     if c["userbad"]:
@@ -102,7 +106,10 @@ def judge(c, r, tc, root):
     errs = j["parse"] + j["types"]
     if errs:
         kind = ill_kind(errs[0])
-        if c["unsupp"]:
+        if c.get("mustok"):
+            problems.append(("C09/exit0-ill-typed:%s:%s:%s" % (c["family"], pl, kind), "supported input (%s): exit 0 and the package does not type-check: %s" % (
+                c["what"], errs[0][:250])))
+        elif c["unsupp"]:
             problems.append(("C09/exit0-ill-typed:%s:%s" % (pl, kind), "unsupported argument (%s) accepted: exit 0 and the package does not type-check: %s" % (
                 c["what"], errs[0][:250])))
         else:
@@ -120,7 +127,8 @@ def run(rep):
                        "19 wrong expressions (non-functions, variadic, wrong shape, untyped nil); named twins over one underlying type; broken / "
                        "empty / test-only packages; truncated, garbage and foreign derived.gen.go; import alias clashes. One evaluation = one run "
                        "of the real binary on one package; distinct non-trivial = distinct (plugin, what) cases in which goderive had to "
-                       "reject something or emit code (not the controls)")
+                       "reject something or emit code (not the controls); family nonascii (type names of 1-3 non-ASCII letters, same name in 2-3 packages, "
+                       "every letter prefix already taken) must end with exit 0 and a file that parses and type-checks")
     rep.assumptions += ["panics inside go/types, x/tools loader and go/format are outside the model; the broken-file stream exercises them",
                         "the type-check oracle is go/types with the source importer (trusted)",
                         "a diagnostic that prints the type only as a %#v dump of go/types internals is counted as naming it (reported as weak)"]
